@@ -124,6 +124,27 @@ def h_v2(sx):
     return {"text": text, "result": r}
 
 
+def h_history(sx):
+    """Several different expressions evaluated one after the other in one process against the SAME tag list: each answer is
+    that expression's own formula (no state shared between expression objects)."""
+    from behave.tag_expression.builder import make_tag_expression, TagExpressionProtocol
+    small = ["a", "b.c", "ax"]
+    tags = [t for t in small if bool(sx.bool("has:" + t))]          # a concrete list per path (2^3 paths)
+    member = {t: z3.BoolVal(t in tags) for t in small}
+    pool = [["lit", "a"], ["not", ["lit", "a"]], ["or", ["lit", "a"], ["lit", "b.c"]], ["and", ["wild", "a*"], ["not", ["lit", "b.c"]]], ["true"]]
+    got = []
+    for k in range(3):
+        i = sx.choice("expr%d" % k, list(range(len(pool))))
+        i = i if isinstance(i, int) else i.concretize()
+        tree = pool[i]
+        text = T.render_v2(tree, at=bool(k % 2))
+        r = bool(make_tag_expression(text, TagExpressionProtocol.V2).check(list(tags)))
+        want = z3.is_true(z3.simplify(T.formula(tree, member, small)))
+        got.append([text, r])
+        sx.check(r == want, "C07.check==formula", detail={"evaluated_so_far": list(got), "tags": tags, "expected": want})
+    return got
+
+
 def h_special(sx):
     """empty expression == true; {config.tags} substitution == formula-level substitution."""
     from behave.tag_expression.builder import make_tag_expression, TagExpressionProtocol
@@ -179,6 +200,7 @@ def jobs(tier, seed):
                       min_paths=20, cost=100, validate=30 if tier == "quick" else 100, closure=False))
     js.append(Job("v2.auto", "props.c07:h_v2", {"trees": trees[:24], "protocol": "auto"},
                   reach=["C07.check==formula"], min_paths=20, cost=100, validate=30, closure=False))
+    js.append(Job("history", "props.c07:h_history", {}, reach=["C07.check==formula"], min_paths=50, cost=100, validate=40, closure=False))
     defaults = [["lit", "a"], ["or", ["lit", "a"], ["lit", "b.c"]], ["not", ["lit", "a"]], ["and", ["lit", "a"], ["not", ["wild", "a.*"]]],
                 ["or", ["not", ["lit", "a"]], ["and", ["lit", "b.c"], ["wild", "[ab]c"]]], ["not", ["or", ["lit", "a"], ["lit", "b.c"]]],
                 ["and", ["or", ["lit", "a"], ["lit", "b.c"]], ["lit", "x-y=1"]]]
